@@ -20,6 +20,12 @@ structure Backend where
 
 def invalidBackendRef : String := "invalid-backend-ref"
 
+/-- weight of a BackendRef as `createBackendRef` computes it (`none` = field absent): default 1, a value
+outside `[0, 1_000_000]` (validateWeight) becomes 0 -/
+def effectiveWeight : Option Int → Int
+  | none => 1
+  | some w => if 0 ≤ w ∧ w ≤ 1000000 then w else 0
+
 /-- `getSplitClientValue` -/
 def value (b : Backend) : String := if b.valid then b.upstream else invalidBackendRef
 
@@ -28,13 +34,8 @@ def total : List Backend → Nat
   | [] => 0
   | b :: bs => b.weight + total bs
 
-/-- `percentOf(weight, totalWeight)`:
-`p := (float64(weight) * 100) / float64(totalWeight); return math.Floor(p*100) / 100` -/
-def percentOf (w T : Nat) : Rat :=
-  let p := fdiv (fmul (ofNat w) 100) (ofNat T)
-  fdiv (ffloor (fmul p 100)) 100
-
-/-- http.SplitClientDistribution: `Percent` is either the literal "100" (all-zero case) or a `%.2f` -/
+/-- http.SplitClientDistribution: `Percent` is either the literal "100" (all-zero case) or a two-decimal
+number (`%d.%02d` of the hundredths now, `%.2f` of a float64 before the fix) -/
 inductive Pct where
   | hundred
   | dec (d : Dec2)
@@ -45,20 +46,40 @@ structure Dist where
   value : String
   deriving Repr
 
-/-- the loop over all backends except the last one, and the final append.
-`avail` is `availablePercentage`. -/
-def distLoop (T : Nat) : Rat → List Backend → List Dist
-  | _, [] => []
-  | avail, [b] => [⟨.dec (fmt2 avail), value b⟩]
-  | avail, b :: b' :: bs =>
-    let p := percentOf b.weight T
-    ⟨.dec (fmt2 p), value b⟩ :: distLoop T (fsub avail p) (b' :: bs)
+/-! ### PRIMARY model: the integer algorithm of `createSplitClientDistributions` -/
+
+/-- `cents[i] = int64(b.Weight) * hundredPercent / int64(totalWeight)` (no int64 overflow: 10⁶·10⁴ < 2⁶³) -/
+def floorCents (T : Nat) (w : Nat) : Nat := 10000 * w / T
+
+/-- `cents[lastNonZero] += remaining`: add `r` to the entry of the last backend whose weight is non-zero -/
+def addToLastNonZero (r : Nat) : List Nat → List Nat → List Nat
+  | w :: ws, c :: cs =>
+    if ws.all (· == 0) && w != 0 then (c + r) :: cs else c :: addToLastNonZero r ws cs
+  | _, cs => cs
+
+/-- the hundredths every backend gets (total > 0). `remaining = 10000 − Σ floors` is never negative
+(`floors_sum`), so truncated subtraction is the int64 subtraction. -/
+def intCents (ws : List Nat) : List Nat :=
+  let T := ws.sum
+  let cs := ws.map (floorCents T)
+  addToLastNonZero (10000 - cs.sum) ws cs
+
+/-- `fmt.Sprintf("%d.%02d", c/100, c%100)` is the unsigned two-decimal rendering of `c` hundredths -/
+def centsDec (c : Nat) : Dec2 := ⟨false, c⟩
+
+/-- the printed shares of a weight vector with positive total -/
+def shares (ws : List Nat) : List Dec2 := (intCents ws).map centsDec
+
+/-- the final loop: one distribution per backend -/
+def mkDists : List Backend → List Nat → List Dist
+  | b :: bs, c :: cs => ⟨.dec (centsDec c), value b⟩ :: mkDists bs cs
+  | _, _ => []
 
 /-- `createSplitClientDistributions`; `none` = nil (group does not need a split) -/
 def distributions (bs : List Backend) : Option (List Dist) :=
   if bs.length ≤ 1 then none
   else if total bs = 0 then some [⟨.hundred, invalidBackendRef⟩]
-  else some (distLoop (total bs) (ofNat 100) bs)
+  else some (mkDists bs (intCents (bs.map (·.weight))))
 
 def Pct.render : Pct → String
   | .hundred => "100"
@@ -82,9 +103,30 @@ def backendGroupName (gname : String) : List Backend → String
   | [b] => if b.weight == 0 || !b.valid then invalidBackendRef else b.upstream
   | _ => gname
 
-/-! ### numeric view used by the theorems: shares in hundredths of a percent -/
+/-! ### PRE-FIX variant (before commit 286dc83): float64 floor-then-subtract -/
 
-/-- the float values the loop formats: non-last `percentOf`s followed by the final remainder -/
+/-- `percentOf(weight, totalWeight)`:
+`p := (float64(weight) * 100) / float64(totalWeight); return math.Floor(p*100) / 100` -/
+def percentOf (w T : Nat) : Rat :=
+  let p := fdiv (fmul (ofNat w) 100) (ofNat T)
+  fdiv (ffloor (fmul p 100)) 100
+
+/-- the pre-fix loop over all backends except the last one, and the final append.
+`avail` is `availablePercentage`. -/
+def floatDistLoop (T : Nat) : Rat → List Backend → List Dist
+  | _, [] => []
+  | avail, [b] => [⟨.dec (fmt2 avail), value b⟩]
+  | avail, b :: b' :: bs =>
+    let p := percentOf b.weight T
+    ⟨.dec (fmt2 p), value b⟩ :: floatDistLoop T (fsub avail p) (b' :: bs)
+
+/-- pre-fix `createSplitClientDistributions` -/
+def floatDistributions (bs : List Backend) : Option (List Dist) :=
+  if bs.length ≤ 1 then none
+  else if total bs = 0 then some [⟨.hundred, invalidBackendRef⟩]
+  else some (floatDistLoop (total bs) (ofNat 100) bs)
+
+/-- the float values the pre-fix loop formats: non-last `percentOf`s followed by the final remainder -/
 def shareVals (T : Nat) : Rat → List Nat → List Rat
   | _, [] => []
   | avail, [_] => [avail]
@@ -92,25 +134,8 @@ def shareVals (T : Nat) : Rat → List Nat → List Rat
     let p := percentOf w T
     p :: shareVals T (fsub avail p) (w' :: ws)
 
-/-- the printed shares of a weight vector with positive total -/
-def shares (ws : List Nat) : List Dec2 :=
+/-- the shares the pre-fix code printed for a weight vector with positive total -/
+def floatShares (ws : List Nat) : List Dec2 :=
   (shareVals ws.sum (ofNat 100) ws).map fmt2
-
-/-! ### REPAIRED variant (candidate fix, not what /repo does): integer arithmetic in hundredths of a
-percent; every backend gets `⌊10^4·w/T⌋`, the rounding remainder goes to the last backend whose weight
-is not zero. -/
-
-def floorCents (T : Nat) (w : Nat) : Nat := 10000 * w / T
-
-/-- add `r` to the last entry whose weight is non-zero -/
-def addToLastNonZero (r : Nat) : List Nat → List Nat → List Nat
-  | w :: ws, c :: cs =>
-    if ws.all (· == 0) && w != 0 then (c + r) :: cs else c :: addToLastNonZero r ws cs
-  | _, cs => cs
-
-def repairedCents (ws : List Nat) : List Nat :=
-  let T := ws.sum
-  let cs := ws.map (floorCents T)
-  addToLastNonZero (10000 - cs.sum) ws cs
 
 end NGF.SplitClients
